@@ -264,8 +264,28 @@ func Inject(t *rapid.T, s *Schema, rule, placement string) *Injection {
 			s.Files[len(s.Files)-1].Enums = append(s.Files[len(s.Files)-1].Enums, e)
 			efq = s.ID + ".ext.OffEnum"
 		default:
-			main.Enums = append(main.Enums, e)
-			efq = s.Pkg + ".OffEnum"
+			// the enum with the custom values need not live where the annotated field does: an enums-only file of
+			// the same run, or an imported one
+			where := 0
+			if InjectShape >= 0 {
+				where = InjectShape % 3
+			} else {
+				where = rapid.IntRange(0, 2).Draw(t, "enum_file")
+			}
+			switch where {
+			case 1:
+				s.Files = append(s.Files, &File{Name: s.ID + "/enum_types.proto", Generate: true, Enums: []*Enum{e}})
+				efq = s.Pkg + ".OffEnum"
+				inj.Shape = "enum_in_other_generated_file"
+			case 2:
+				s.Files = append(s.Files, &File{Name: s.ID + "/ext/enums.proto", Generate: false, Pkg: s.ID + ".ext", GoPath: s.GoPath + "/ext", GoPkg: "ext", Enums: []*Enum{e}})
+				efq = s.ID + ".ext.OffEnum"
+				inj.Shape = "enum_in_imported_file"
+			default:
+				main.Enums = append(main.Enums, e)
+				efq = s.Pkg + ".OffEnum"
+				inj.Shape = "enum_in_same_file"
+			}
 		}
 		bad.Kind, bad.TypeRef = KEnum, efq
 		if rapid.Bool().Draw(t, "enumrep") {
